@@ -1,7 +1,8 @@
 """C08 - response-size accounting (kernel obligations, full 64-bit) and limit provenance."""
 import z3
 from .. import run as R
-from ..sym import Ctx, Executor, Node, Ptr, Opaque
+import re
+from ..sym import Ctx, Executor, Node, Ptr, Opaque, to_term
 from .. import models as M
 
 LIM = z3.BitVecVal(1 << 63, 64)
@@ -193,4 +194,48 @@ def obligations(tier, seed):
         out.append(R.decide("kernel:BatchResponseBuilder::finish", "kernel", z3.Or(*viol), [z3.Or(*reach_ok), z3.Or(*reach_err)], bodies=[b.name],
                             desc="finish: length 1 (nothing appended) <=> the invalid-request error object; otherwise the text keeps its length (',' replaced by ']'), i.e. final length = 1 + sum(entry_i + 1)",
                             bounds="all accumulated lengths in [1, 2^63)", extra={"models": _models_used(ctx) + ["RawValue::from_string(..).expect(..) passes the text through"]}))
+    out += _limit_provenance(core)
     return out
+
+
+def _limit_provenance(core):
+    """MethodResponse::response bounds *every* payload kind by its max_response_size parameter and answers with the call's id;
+    the server hands its configured limit to every callback and to the batch builder."""
+    from .. import prov as P
+    res = []
+    MRP = r"^fn method_response::<impl at core/src/server/method_response\.rs:[\d: ]+>::"
+    b = R.find_body(core, MRP + r"response\(_1: jsonrpsee_types::Id<'_>, _2: method_response::ResponsePayload<'_, T>, _3: usize\)")
+    res.append(P.site_obligation("prov:MethodResponse::response:writer-limit", core, b, r"BoundedWriter::new$", 0, z3.BitVec("arg3", 64),
+                                 desc="the bounded writer is created with the max_response_size argument on every path - for success and for error payloads alike",
+                                 bounds="all limits; every path of MethodResponse::response", keydetail="writer-limit",
+                                 replay=dict(scenario="c08_error_payload", vars={}, fixed={}, region=z3.BoolVal(True)), extra_models=list(M.TRACING_MODELS)))
+    # the reply built on the overflow path carries the call's id and -32008
+    ex, ctx, paths = P.explore(core, b, extra_models=list(M.TRACING_MODELS))
+    viol, reach = [], []
+    for p in paths:
+        if p.kind != "return":
+            continue
+        evs = [e for e in p.events if e.kind in ("call", "inline")]
+        isio = [e for e in evs if e.callee.endswith("Error::is_io")]
+        news = [e for e in evs if re.search(r"jsonrpsee_types::Response::<.*>::new$", e.callee)]
+        for e in news:
+            idt = str(to_term(e.args[1]))
+            # every response object is built with the id this call was given (or a clone of it)
+            if "arg1" not in idt:
+                viol.append(p.cond())
+        if isio:
+            reach.append(p.cond())
+            eo = [e for e in evs if re.search(r"ErrorObject::<'_>::borrowed$", e.callee)]
+            io_true = isio[0].ret if isinstance(isio[0].ret, z3.BoolRef) else None
+            if io_true is not None and not ex.feasible(list(p.pc) + [z3.Not(io_true)]):
+                if not eo or not isinstance(eo[0].args[0], z3.BitVecRef):
+                    viol.append(p.cond())
+                else:
+                    viol.append(z3.And(p.cond(), eo[0].args[0] != z3.BitVecVal(-32008 & 0xFFFFFFFF, 32)))
+    if not reach:
+        res.append(R.Result(engine="mirsym", name="prov:MethodResponse::response:too-big-reply", kind="provenance", status="vacuous", detail="overflow path not reached", bodies=[b.name]))
+    else:
+        res.append(R.decide("prov:MethodResponse::response:too-big-reply", "provenance", z3.Or(*viol) if viol else z3.BoolVal(False), [z3.Or(*reach)], bodies=[b.name],
+                            desc="when the writer refuses (io error) the reply is error -32008 and every reply object is built with the id this call was given",
+                            bounds="every path", keydetail="too-big-reply"))
+    return res
